@@ -116,6 +116,11 @@ pub fn intersect_cc<'a>(mut a: &'a Circle, mut b: &'a Circle) -> CircleIntersect
     if d < a.r - b.r - EPS {
         CircleIntersection::None
     } else if d < a.r - b.r + EPS {
+        if d == 0.0 {
+            // concentric, radii within EPS of each other (rounding in the test above let them through): there is no
+            // direction to put a touch point in
+            return CircleIntersection::Same;
+        }
         CircleIntersection::TouchInside(a.c + (b.c - a.c) / d * a.r)
     } else if d < a.r + b.r - EPS {
         let line = Line::new(
